@@ -358,8 +358,12 @@ def erf(x, out=None, n=0):
     a = 2 * np_recip_sqrt_pi * np.exp(-np.square(x))
     b = np.zeros_like(x)
     for k in range(n):
-        sa = pow(-1, k) * np.exp2(2*k + 1 - n) * pow(x, 2*k + 1 - n)
         sb = scipy.special.poch(2*k + 2 - n, 2*(n - 1 - k))
+        if sb == 0:
+            # the terms with a negative power of x have a vanishing
+            # coefficient; skipping them avoids 0*inf = nan at x = 0
+            continue
+        sa = pow(-1, k) * np.exp2(2*k + 1 - n) * pow(x, 2*k + 1 - n)
         sc = math.factorial(n - 1 - k)
         b += (sa * sb) / sc
     return np.multiply(a, b, out)
@@ -369,8 +373,12 @@ def erfi(x, out=None, n=0):
     a = 2 * np_recip_sqrt_pi * np.exp(np.square(x))
     b = np.zeros_like(x)
     for k in range(n):
-        sa = np.exp2(2*k + 1 - n) * pow(x, 2*k + 1 - n)
         sb = scipy.special.poch(2*k + 2 - n, 2*(n - 1 - k))
+        if sb == 0:
+            # the terms with a negative power of x have a vanishing
+            # coefficient; skipping them avoids 0*inf = nan at x = 0
+            continue
+        sa = np.exp2(2*k + 1 - n) * pow(x, 2*k + 1 - n)
         sc = math.factorial(n - 1 - k)
         b += (sa * sb) / sc
     return np.multiply(a, b, out)
